@@ -108,6 +108,15 @@ Theorem early_response_ends_connection :
     existsb is_recycle (evs redir x i) = false /\ c_closed (snd (nxt redir x i)) = true.
 Proof. exact early_response_ends_connection_proof. Qed.
 
+(** No byte of a backend response is written to the client before the response head is
+    complete (H1 and H2 frontends): a default answer can therefore never follow half a
+    status line / header block on the wire. *)
+Theorem response_head_gate :
+  forall (redir : option N) (h2 : bool) (history : list input) (i : input),
+    let x := run_st redir (fresh, init_conn h2) history in
+    existsb is_relay_start (evs redir x i) = true -> is_main_phase (s_phase (fst x)) = true.
+Proof. exact head_gate_proof. Qed.
+
 (** 4. bounded_wait (invariant form): after any history a live session has its
     frontend timer armed, and whatever is queued and sendable has WRITABLE armed
     in interest and event, so the queued answer is flushed without waiting for
